@@ -11,6 +11,9 @@ pub mod c08;
 pub mod c09;
 pub mod c10;
 pub mod c11;
+pub mod c12;
+pub mod c17;
+pub mod c19;
 
 /// build the prepared job for a spec (runs compile + calibration); None = nothing to run
 /// (a violation or a note has been recorded in `out`)
@@ -22,6 +25,9 @@ pub fn make(spec: &JobSpec, ex: &mut Executor, out: &mut JobResult) -> Option<Bo
         "C09" => c09::make(spec, ex, out),
         "C10" => c10::make(spec, ex, out),
         "C11" => c11::make(spec, ex, out),
+        "C12" => c12::make(spec, ex, out),
+        "C17" => c17::make(spec, ex, out),
+        "C19" => c19::make(spec, ex, out),
         other => {
             out.notes.push(format!("unknown check {other}"));
             None
